@@ -315,8 +315,13 @@ func runCheck(root, repo string, spec *CheckSpec, tier string, seed int, only st
 		for _, v := range fresh {
 			var cfg *EntryCfg
 			for _, res := range ur.results {
-				if res.Cfg.Func == v.Entry {
+				// several parameterisations may share one entry function: the
+				// counterexample belongs to the one with its parameters
+				if res.Cfg.Func == v.Entry && (cfg == nil || sameParams(res.Cfg.Params, v.Params)) {
 					cfg = res.Cfg
+					if sameParams(res.Cfg.Params, v.Params) {
+						break
+					}
 				}
 			}
 			if cfg != nil && cfg.NativeReplay != nil && !*cfg.NativeReplay && ur.eng != nil {
@@ -787,4 +792,16 @@ func maxInt(a, b int) int {
 		return a
 	}
 	return b
+}
+
+func sameParams(a, b map[string]int) bool {
+	if len(a) != len(b) {
+		return false
+	}
+	for k, v := range a {
+		if w, ok := b[k]; !ok || w != v {
+			return false
+		}
+	}
+	return true
 }
